@@ -57,6 +57,13 @@ def rawLayout : List RawService :=
                                       { id := 2, dev := 0, ro := true, repl := 1, classes := [] }] },
    { id := 2, ro := true, mounts := [{ id := 3, dev := 6, ro := false, repl := 0, classes := [3] }] }]
 
+/-! F05a: two class-0 (`default`) mounts holding old replicas; the block is wanted only in class 5,
+which no mount offers (so it is not among `bal.classes` = [0]), with replication 2. -/
+def f05aEnv : Env := wEnv (fun c => if c = 5 then 2 else 0)
+def f05aMounts : List Mount := [mkMount 0 0 0 [0], mkMount 1 1 0 [0]]
+def f05aReps : List Replica := [⟨0, 0, 900⟩, ⟨1, 1, 901⟩]
+def f05aResult : Result := balanceBlock f05aEnv [0] (wSorter f05aEnv) f05aMounts f05aReps
+
 def roEnv : Env := wEnv (fun c => if c = 1 then 1 else 0)
 def roReps : List Replica := [⟨0, 0, 900⟩, ⟨2, 1, 800⟩, ⟨3, 2, 700⟩]
 
